@@ -95,6 +95,29 @@ add("C10", "c10_reject_display_timing", "reject", "fn main() { println!(\"{}\", 
 add("C10", "c10_reject_clone_verifier_timing", "reject", "fn main() { let a = PkceCodeVerifier::new(\"x\".to_string()); let _b = a.clone(); }", code="E0599", needle="clone", features=TIMING)
 
 
+# ---- C17: the futures are Send when the caller-supplied client and closures are
+SEND_PRELUDE = "fn assert_send<T: Send>(_: T) {}\n"
+SEND_CALLS = {
+    "code": "c.exchange_code(AuthorizationCode::new(\"c\".to_string())).request_async(&http)",
+    "refresh": "c.exchange_refresh_token(&rt).request_async(&http)",
+    "password": "c.exchange_password(&u, &p).request_async(&http)",
+    "client_credentials": "c.exchange_client_credentials().request_async(&http)",
+    "device_authorization": "c.exchange_device_code().request_async::<_, EmptyExtraDeviceAuthorizationFields>(&http)",
+    "device_token": "c.exchange_device_access_token(&d).request_async(&http, |_d: std::time::Duration| async {}, None)",
+    "introspection": "c.introspect(&at).request_async(&http)",
+    "revocation": "c.revoke_token(StandardRevocableToken::AccessToken(AccessToken::new(\"t\".to_string()))).unwrap().request_async(&http)",
+}
+SEND_SETUP = ("let c = full(); let http = reqwest::Client::new(); let rt = RefreshToken::new(\"r\".to_string()); "
+              "let u = ResourceOwnerUsername::new(\"u\".to_string()); let p = ResourceOwnerPassword::new(\"p\".to_string()); "
+              "let at = AccessToken::new(\"t\".to_string()); let d = details(); ")
+for name, call in SEND_CALLS.items():
+    add("C17", "c17_send_%s" % name, "accept", SEND_PRELUDE + "fn main() { %s assert_send(%s); }" % (SEND_SETUP, call))
+add("C17", "c17_not_send_with_rc_client", "reject",
+    SEND_PRELUDE + "fn main() { let c = full(); let rc = std::rc::Rc::new(1u8); "
+    "let http = move |_r: HttpRequest| { let rc = rc.clone(); async move { let _keep = rc; Err::<HttpResponse, std::io::Error>(std::io::Error::new(std::io::ErrorKind::Other, \"x\")) } }; "
+    "assert_send(c.exchange_code(AuthorizationCode::new(\"c\".to_string())).request_async(&http)); }", code="E0277", needle="Rc<")
+
+
 def write_crate(probes, features):
     d = os.path.join(PROBE_DIR, "f_" + ("_".join(features) if features else "none"))
     os.makedirs(os.path.join(d, "src", "bin"), exist_ok=True)
